@@ -44,6 +44,10 @@ fn input_kinds() -> Vec<InputKind> {
         let c = set.to_case();
         v.push(InputKind { label: "success-xsd-import-cycle-through-start", files: to_files(&c), start: c.start.clone(), start_exists: true, should_succeed: true });
     }
+    // file-name forms: no extension at all, several dots, a hidden-file style name
+    for (label, name) in [("success-xsd-extensionless-name", "service"), ("success-xsd-name-with-two-dots", "svc.v1.xsd"), ("success-xsd-name-with-leading-dot", ".hidden.xsd")] {
+        v.push(InputKind { label, files: vec![(name.into(), to_files(&s1)[0].1.clone())], start: name.into(), start_exists: true, should_succeed: true });
+    }
     v.push(InputKind { label: "missing-input", files: vec![("other.xsd".into(), to_files(&s1)[0].1.clone())], start: "a.xsd".into(), start_exists: false, should_succeed: false });
     {
         let mut f = to_files(&s1);
@@ -108,7 +112,8 @@ struct RowResult {
 fn run_row(idx: usize, row: &Row, kind: &InputKind) -> RowResult {
     let base = PathBuf::from(format!("/verif/work/c17/r{idx}"));
     let _ = std::fs::remove_dir_all(&base);
-    let indir = base.join("proj").join("in");
+    // every directory of the path carries a dot, so "the last dot of the argument" is not always the extension's
+    let indir = base.join("proj").join("in.d");
     let outdir = base.join("proj").join("out");
     std::fs::create_dir_all(&indir).unwrap_or_else(|e| machinery(&format!("mkdir: {e}")));
     std::fs::create_dir_all(&outdir).unwrap_or_else(|e| machinery(&format!("mkdir: {e}")));
@@ -117,10 +122,10 @@ fn run_row(idx: usize, row: &Row, kind: &InputKind) -> RowResult {
     }
     let (cwd, input_arg): (PathBuf, String) = match row.spelling {
         "absolute" => (base.clone(), indir.join(&kind.start).to_string_lossy().to_string()),
-        "relative-with-dir" => (base.join("proj"), format!("in/{}", kind.start)),
-        "dot-slash" => (base.join("proj"), format!("./in/{}", kind.start)),
+        "relative-with-dir" => (base.join("proj"), format!("in.d/{}", kind.start)),
+        "dot-slash" => (base.join("proj"), format!("./in.d/{}", kind.start)),
         "bare-name-in-cwd" => (indir.clone(), kind.start.clone()),
-        _ => (base.join("proj"), format!("in/../in/{}", kind.start)),
+        _ => (base.join("proj"), format!("in.d/../in.d/{}", kind.start)),
     };
     let stem = Path::new(&kind.start).with_extension("rs");
     let out_path: PathBuf = if row.output_mode == "explicit" { outdir.join("gen.rs") } else { indir.join(&stem) };
@@ -259,7 +264,7 @@ pub fn check(tier: &str) -> i32 {
     }
     rep.set("evaluations", json!(rows.len()));
     rep.set("distinct_nontrivial", json!(distinct.len()));
-    rep.set("rule", json!("complete product: 11 input outcomes (4 succeed, one of them with an import cycle through the start file; 7 fail at successive stages: missing input, non-UTF-8 sibling, malformed XML, unresolved import, unresolved reference, a failure while writing, unsupported binding) x 5 path spellings x {--output, default .rs path} x pre-existing output {absent, shorter, longer with sentinel tail}; every row is one process run of the real zeep binary in a scratch directory; all rows are distinct and non-trivial"));
+    rep.set("rule", json!("complete product: 14 input outcomes (7 succeed, one of them with an import cycle through the start file, three with file-name forms: no extension, two dots, leading dot; the input directory's name contains a dot; 7 fail at successive stages: missing input, non-UTF-8 sibling, malformed XML, unresolved import, unresolved reference, a failure while writing, unsupported binding) x 5 path spellings x {--output, default .rs path} x pre-existing output {absent, shorter, longer with sentinel tail}; every row is one process run of the real zeep binary in a scratch directory; all rows are distinct and non-trivial"));
     rep.set("exhaustive", json!(true));
     rep.assume("the zeep binary is rebuilt from /repo/zeep by the check script before the run");
     rep.assume("success rows are compared with the library output computed in-process from the same file contents");
